@@ -45,7 +45,7 @@ ASSUMPTIONS = [
     "exact stratum preservation is asserted for replacement sampling only (single-pass is documented not to guarantee counts); under single-pass + by_label the easy strata must be exact",
 ]
 PROBES = [
-    "unsigned_scores", "from_labels_source", "sample_of_sample", "documented_error", "extreme_class_draw", "extreme_easy_draw", "single_pass_binomial", "single_pass_poisson", "dynamic_to_single_pass",
+    "unsigned_scores", "from_labels_source", "sample_of_sample", "source_copied", "documented_error", "extreme_class_draw", "extreme_easy_draw", "single_pass_binomial", "single_pass_poisson", "dynamic_to_single_pass",
     "dynamic_to_replacement", "empty_class_source", "smoothing", "proportion", "callable", "ties_in_source",
     "int_scores", "easy_samples", "presorted_source",
 ]
@@ -121,7 +121,9 @@ def gen_source(rnd, size_class, allow_empty, allow_extreme=True):
         spec["pos"] = [f_(v) for v in spec["pos"]]
         spec["neg"] = [f_(v) for v in spec["neg"]]
         spec["style"] = "extreme"
-    if rnd.random() < 0.12 and not spec["presorted"]:
+    if rnd.random() < 0.08 and not spec["presorted"] and spec["style"] != "extreme":
+        spec["user_init"] = rnd.choice(["negating", "extra_arg"])
+    elif rnd.random() < 0.12 and not spec["presorted"]:
         spec["via"] = "from_labels"
         spec["pos_label"] = rnd.choice([1, 1, "p", True, 2])
     if spec["dtype"] == "int64":
@@ -210,7 +212,7 @@ def generate(rnd, tier):
         r = rnd.random()
         oi = rnd.randrange(pool_n)
         if r < 0.12:
-            ops.append({"op": "query", "obj": oi, "what": rnd.choice(["cm", "fnr", "fpr", "threshold_at_fnr", "swap"])})
+            ops.append({"op": "query", "obj": oi, "what": rnd.choice(["cm", "fnr", "fpr", "threshold_at_fnr", "swap", "copy", "deepcopy", "pickle"])})
             continue
         if r < 0.18:
             ops.append({"op": "reseed", "seed": rnd.randrange(2**31)})
@@ -462,6 +464,18 @@ def execute(scn, ctx):
                 if what == "swap":
                     r = src.swap().swap()
                     out = M.canon(r)
+                elif what in ("copy", "deepcopy", "pickle"):
+                    # caller-side history step: from here on the source is its own copy / unpickled self
+                    import copy as _copy
+                    import pickle as _pickle
+                    r = _copy.copy(src) if what == "copy" else _copy.deepcopy(src) if what == "deepcopy" else _pickle.loads(_pickle.dumps(src))
+                    out = M.canon(r)
+                    probe("source_copied")
+                    if out != M.canon(src) or type(r) is not type(src):
+                        viol.append({"invariant": "C11.source_unchanged", "tags": {"how": what},
+                                     "detail": f"the {what} round trip of the source is not equal to the source (op {step})"})
+                    else:
+                        objs[oi] = r
                 elif what == "threshold_at_fnr":
                     out = M.canon(src.threshold_at_fnr(np.array([0.1, 0.5]))) if len(src.pos) else None
                 elif what == "cm":
